@@ -70,6 +70,7 @@ def run(F, rep, tier="quick", extra=None, only=None):
     check_constants(F, rep, S)
     check_into_format(F, rep)
     check_format_from_impls(F, rep)
+    check_cast_ranges(F, rep)
     return {"level": "proof"}
 
 
@@ -268,3 +269,37 @@ def check_format_from_impls(F, rep):
             rep.ob("FORMAT-HOP", key, not bad, ("intermediate format(s): " + ", ".join("%s -> %s" % h for h in bad)) if bad else
                    "one hop: %s -> %s" % hops[0], F.loc(b))
     rep.floor("format From impls", n, 16)
+
+
+FLOAT_LIMIT = {"f32": (2 - Fr(1, 2 ** 24)) * 2 ** 127, "f64": (2 - Fr(1, 2 ** 53)) * 2 ** 1023}   # values at or above round to infinity
+INT_MAX = {"u8": 2 ** 8 - 1, "u16": 2 ** 16 - 1, "u32": 2 ** 32 - 1, "u64": 2 ** 64 - 1, "u128": 2 ** 128 - 1, "usize": 2 ** 64 - 1,
+           "i8": 2 ** 7 - 1, "i16": 2 ** 15 - 1, "i32": 2 ** 31 - 1, "i64": 2 ** 63 - 1, "i128": 2 ** 127 - 1, "isize": 2 ** 63 - 1}
+
+
+def _overflowing_cast(src, dst):
+    return src in INT_MAX and dst in FLOAT_LIMIT and INT_MAX[src] >= FLOAT_LIMIT[dst]
+
+
+def check_cast_ranges(F, rep):
+    """CAST-RANGE: the algebra above treats `x as f32` as the identity on the reals.  That is false where the integer type's range exceeds the
+    float's: `u128::MAX as f32` is +inf (2^128 - 1 rounds up past f32::MAX), so `x / MAX` would be 0 for every x and NaN at the top.  Every
+    integer -> float `as` cast of the stimulus conversions must be between types where the whole integer range stays finite."""
+    assert _overflowing_cast("u128", "f32") and not _overflowing_cast("u128", "f64") and not _overflowing_cast("u64", "f32")   # control
+    n = 0
+    bad = {}
+    for b in F.bodies:
+        if not b["file"].endswith("stimulus.rs") or "::test" in b["path"]:
+            continue
+        for node, _p in facts.walk(b["body"]):
+            if node.get("k") != "cast" or not isinstance(node.get("e"), dict):
+                continue
+            dst, src = F.S[node["t"]], F.S[node["e"]["t"]] if isinstance(node["e"].get("t"), int) else "?"
+            if src in INT_MAX and dst in FLOAT_LIMIT:
+                n += 1
+                if _overflowing_cast(src, dst):
+                    bad.setdefault(b["path"], F.loc(b, node))
+    for path, loc in sorted(bad.items()):
+        rep.fail("CAST-RANGE", path, "casts u128 to f32: u128::MAX as f32 is +infinity, so the quotient by it is 0 (NaN at the top of the range) instead of x / MAX", loc)
+    rep.ob("CAST-RANGE", "integer -> float casts in stimulus.rs", not bad, ("%d casts, none from a type whose maximum rounds to infinity in the target float" % n)
+           if not bad else "%d of %d casts overflow" % (len(bad), n))
+    rep.floor("integer -> float casts in stimulus.rs", n, 56)
